@@ -5,16 +5,19 @@
    x/distribution/keeper/{delegation,validator,hooks}.go).  No proofs here.
 
    What is modelled, per validator:
-     tokens, delegator shares, delegations (addr -> shares), and the F1 fee-distribution bookkeeping at the
-     level `handlerTransferShares` edits by hand: ValidatorCurrentRewards.Period, the reference count of
-     every ValidatorHistoricalRewards record, every DelegatorStartingInfo {previous period; stake; height},
-     the (height, period) of every ValidatorSlashEvent.
-   Globally: share allowances (validator, owner, spender), redelegation entries (delegator, src, dst),
-   unbonding entries (delegator, validator, creation height), block height.
+     tokens, delegator shares, status / jailed / unbonding height, delegations (addr -> shares), and the F1
+     fee-distribution state: ValidatorCurrentRewards {period; rewards}, ValidatorOutstandingRewards, every
+     ValidatorHistoricalRewards {cumulative reward ratio; reference count}, every DelegatorStartingInfo
+     {previous period; stake; height}, every ValidatorSlashEvent (height, period, fraction).
+   Globally: share allowances (validator, owner, spender), redelegation entries, unbonding entries (with
+   creation height and balances), the rewards paid out to every account, block height.
+   Reward amounts are those of the staking denom (the only denom the fee collector ever holds here); the
+   validators' commission rate is 0 (as in the harness genesis), the per-block allocation to a validator
+   is an input of the Block operation (it comes from x/distribution's AllocateTokens, not from the
+   precompile).
 
-   NOT modelled - reward amounts: cumulative reward ratios, current/outstanding rewards, balances, the
-   community pool, and therefore the sanity panics inside CalculateDelegationRewards.  Accounts are assumed
-   to hold enough coins; validators stay bonded and unjailed; delegators are not validator operators.
+   NOT modelled: account balances (accounts are assumed to hold enough coins), the community pool,
+   commission, delegators that are validator operators (after set-up).
 
    Conventions: accounts and validators are small integers; LegacyDec is its integer scaled by 10^18
    (lib/Dec.v); a missing store record reads as the Go zero value exactly where the keeper getters do that
@@ -27,9 +30,15 @@ Import ListNotations.
 Open Scope Z_scope.
 
 (* ---------- LegacyDec operations missing from lib/Dec.v (math@v1.3.0/dec.go) ---------- *)
-(* QuoTruncate: (a*10^36 quo b) quo 10^18 ; QuoInt: a quo n (big.Int.Quo truncates towards zero) *)
+(* QuoTruncate: (a*10^36 quo b) quo 10^18 ; QuoInt: a quo n (big.Int.Quo truncates towards zero);
+   MulTruncate: (a*b) quo 10^18 ; QuoRoundUp: chopPrecisionAndRoundUp(a*10^36 quo b) *)
 Definition dec_quo_trunc (a b : Z) : Z := Z.quot (Z.quot (a * (prec * prec)) b) prec.
 Definition dec_quo_int (a n : Z) : Z := Z.quot a n.
+Definition dec_mul_trunc (a b : Z) : Z := Z.quot (a * b) prec.
+Definition chop_roundup (x : Z) : Z :=
+  if x <? 0 then - Z.quot (- x) prec
+  else if x mod prec =? 0 then x / prec else x / prec + 1.
+Definition dec_quo_roundup (a b : Z) : Z := chop_roundup (Z.quot (a * (prec * prec)) b).
 
 (* ---------- results ---------- *)
 Inductive res (A : Type) : Type := Ok (a : A) | Err | Pan.
@@ -71,59 +80,80 @@ Record sinfo := { si_prev : Z; si_stake : Z; si_height : Z }.
 Definition sinfo_zero : sinfo := {| si_prev := 0; si_stake := 0; si_height := 0 |}.
 
 Record vstate := {
-  v_tokens : Z;                    (* Validator.Tokens *)
-  v_shares : Z;                    (* Validator.DelegatorShares (Dec) *)
-  v_dels : list (Z * Z);           (* Delegation.Shares by delegator (Dec) *)
-  v_period : Z;                    (* ValidatorCurrentRewards.Period *)
-  v_hist : list (Z * Z);           (* ValidatorHistoricalRewards.ReferenceCount by period *)
-  v_start : list (Z * sinfo);      (* DelegatorStartingInfo by delegator *)
-  v_slashes : list (Z * Z)         (* ValidatorSlashEvent keys: (height, period) *)
+  v_tokens : Z   (* Validator.Tokens *);
+  v_shares : Z   (* Validator.DelegatorShares (Dec) *);
+  v_status : Z   (* Validator.Status: 0 bonded, 1 unbonding, 2 unbonded *);
+  v_jailed : bool   (* Validator.Jailed *);
+  v_ubh : Z   (* Validator.UnbondingHeight *);
+  v_dels : list (Z * Z)   (* Delegation.Shares by delegator (Dec) *);
+  v_period : Z   (* ValidatorCurrentRewards.Period *);
+  v_cur : Z   (* ValidatorCurrentRewards.Rewards (Dec, the staking denom) *);
+  v_out : Z   (* ValidatorOutstandingRewards (Dec) *);
+  v_hist : list (Z * Z)   (* ValidatorHistoricalRewards.ReferenceCount by period *);
+  v_ratio : list (Z * Z)   (* ValidatorHistoricalRewards.CumulativeRewardRatio by period (Dec; absent = 0) *);
+  v_start : list (Z * sinfo)   (* DelegatorStartingInfo by delegator *);
+  v_slashes : list (Z * Z * Z)   (* ValidatorSlashEvent: (height, period, fraction) *)
 }.
 
-Definition set_tokens (t : Z) (v : vstate) : vstate :=
-  {| v_tokens := t; v_shares := v_shares v; v_dels := v_dels v; v_period := v_period v;
-     v_hist := v_hist v; v_start := v_start v; v_slashes := v_slashes v |}.
-Definition set_shares (s : Z) (v : vstate) : vstate :=
-  {| v_tokens := v_tokens v; v_shares := s; v_dels := v_dels v; v_period := v_period v;
-     v_hist := v_hist v; v_start := v_start v; v_slashes := v_slashes v |}.
-Definition set_dels (d : list (Z * Z)) (v : vstate) : vstate :=
-  {| v_tokens := v_tokens v; v_shares := v_shares v; v_dels := d; v_period := v_period v;
-     v_hist := v_hist v; v_start := v_start v; v_slashes := v_slashes v |}.
-Definition set_period (p : Z) (v : vstate) : vstate :=
-  {| v_tokens := v_tokens v; v_shares := v_shares v; v_dels := v_dels v; v_period := p;
-     v_hist := v_hist v; v_start := v_start v; v_slashes := v_slashes v |}.
-Definition set_hist (hm : list (Z * Z)) (v : vstate) : vstate :=
-  {| v_tokens := v_tokens v; v_shares := v_shares v; v_dels := v_dels v; v_period := v_period v;
-     v_hist := hm; v_start := v_start v; v_slashes := v_slashes v |}.
-Definition set_start (s : list (Z * sinfo)) (v : vstate) : vstate :=
-  {| v_tokens := v_tokens v; v_shares := v_shares v; v_dels := v_dels v; v_period := v_period v;
-     v_hist := v_hist v; v_start := s; v_slashes := v_slashes v |}.
-Definition set_slashes (s : list (Z * Z)) (v : vstate) : vstate :=
-  {| v_tokens := v_tokens v; v_shares := v_shares v; v_dels := v_dels v; v_period := v_period v;
-     v_hist := v_hist v; v_start := v_start v; v_slashes := s |}.
+Definition set_tokens (x : Z) (v : vstate) : vstate :=
+  {| v_tokens := x; v_shares := v_shares v; v_status := v_status v; v_jailed := v_jailed v; v_ubh := v_ubh v; v_dels := v_dels v; v_period := v_period v; v_cur := v_cur v; v_out := v_out v; v_hist := v_hist v; v_ratio := v_ratio v; v_start := v_start v; v_slashes := v_slashes v |}.
+Definition set_shares (x : Z) (v : vstate) : vstate :=
+  {| v_tokens := v_tokens v; v_shares := x; v_status := v_status v; v_jailed := v_jailed v; v_ubh := v_ubh v; v_dels := v_dels v; v_period := v_period v; v_cur := v_cur v; v_out := v_out v; v_hist := v_hist v; v_ratio := v_ratio v; v_start := v_start v; v_slashes := v_slashes v |}.
+Definition set_status (x : Z) (v : vstate) : vstate :=
+  {| v_tokens := v_tokens v; v_shares := v_shares v; v_status := x; v_jailed := v_jailed v; v_ubh := v_ubh v; v_dels := v_dels v; v_period := v_period v; v_cur := v_cur v; v_out := v_out v; v_hist := v_hist v; v_ratio := v_ratio v; v_start := v_start v; v_slashes := v_slashes v |}.
+Definition set_jailed (x : bool) (v : vstate) : vstate :=
+  {| v_tokens := v_tokens v; v_shares := v_shares v; v_status := v_status v; v_jailed := x; v_ubh := v_ubh v; v_dels := v_dels v; v_period := v_period v; v_cur := v_cur v; v_out := v_out v; v_hist := v_hist v; v_ratio := v_ratio v; v_start := v_start v; v_slashes := v_slashes v |}.
+Definition set_ubh (x : Z) (v : vstate) : vstate :=
+  {| v_tokens := v_tokens v; v_shares := v_shares v; v_status := v_status v; v_jailed := v_jailed v; v_ubh := x; v_dels := v_dels v; v_period := v_period v; v_cur := v_cur v; v_out := v_out v; v_hist := v_hist v; v_ratio := v_ratio v; v_start := v_start v; v_slashes := v_slashes v |}.
+Definition set_dels (x : list (Z * Z)) (v : vstate) : vstate :=
+  {| v_tokens := v_tokens v; v_shares := v_shares v; v_status := v_status v; v_jailed := v_jailed v; v_ubh := v_ubh v; v_dels := x; v_period := v_period v; v_cur := v_cur v; v_out := v_out v; v_hist := v_hist v; v_ratio := v_ratio v; v_start := v_start v; v_slashes := v_slashes v |}.
+Definition set_period (x : Z) (v : vstate) : vstate :=
+  {| v_tokens := v_tokens v; v_shares := v_shares v; v_status := v_status v; v_jailed := v_jailed v; v_ubh := v_ubh v; v_dels := v_dels v; v_period := x; v_cur := v_cur v; v_out := v_out v; v_hist := v_hist v; v_ratio := v_ratio v; v_start := v_start v; v_slashes := v_slashes v |}.
+Definition set_cur (x : Z) (v : vstate) : vstate :=
+  {| v_tokens := v_tokens v; v_shares := v_shares v; v_status := v_status v; v_jailed := v_jailed v; v_ubh := v_ubh v; v_dels := v_dels v; v_period := v_period v; v_cur := x; v_out := v_out v; v_hist := v_hist v; v_ratio := v_ratio v; v_start := v_start v; v_slashes := v_slashes v |}.
+Definition set_out (x : Z) (v : vstate) : vstate :=
+  {| v_tokens := v_tokens v; v_shares := v_shares v; v_status := v_status v; v_jailed := v_jailed v; v_ubh := v_ubh v; v_dels := v_dels v; v_period := v_period v; v_cur := v_cur v; v_out := x; v_hist := v_hist v; v_ratio := v_ratio v; v_start := v_start v; v_slashes := v_slashes v |}.
+Definition set_hist (x : list (Z * Z)) (v : vstate) : vstate :=
+  {| v_tokens := v_tokens v; v_shares := v_shares v; v_status := v_status v; v_jailed := v_jailed v; v_ubh := v_ubh v; v_dels := v_dels v; v_period := v_period v; v_cur := v_cur v; v_out := v_out v; v_hist := x; v_ratio := v_ratio v; v_start := v_start v; v_slashes := v_slashes v |}.
+Definition set_ratio (x : list (Z * Z)) (v : vstate) : vstate :=
+  {| v_tokens := v_tokens v; v_shares := v_shares v; v_status := v_status v; v_jailed := v_jailed v; v_ubh := v_ubh v; v_dels := v_dels v; v_period := v_period v; v_cur := v_cur v; v_out := v_out v; v_hist := v_hist v; v_ratio := x; v_start := v_start v; v_slashes := v_slashes v |}.
+Definition set_start (x : list (Z * sinfo)) (v : vstate) : vstate :=
+  {| v_tokens := v_tokens v; v_shares := v_shares v; v_status := v_status v; v_jailed := v_jailed v; v_ubh := v_ubh v; v_dels := v_dels v; v_period := v_period v; v_cur := v_cur v; v_out := v_out v; v_hist := v_hist v; v_ratio := v_ratio v; v_start := x; v_slashes := v_slashes v |}.
+Definition set_slashes (x : list (Z * Z * Z)) (v : vstate) : vstate :=
+  {| v_tokens := v_tokens v; v_shares := v_shares v; v_status := v_status v; v_jailed := v_jailed v; v_ubh := v_ubh v; v_dels := v_dels v; v_period := v_period v; v_cur := v_cur v; v_out := v_out v; v_hist := v_hist v; v_ratio := v_ratio v; v_start := v_start v; v_slashes := x |}.
+
 
 Definition akey := (Z * Z * Z)%type.   (* validator, owner, spender *)
 Definition akey_eqb (x y : akey) : bool :=
   let '(a, b, c) := x in let '(a', b', c') := y in (a =? a') && (b =? b') && (c =? c').
 
+(* one RedelegationEntry / UnbondingDelegationEntry *)
+Record red := { r_del : Z; r_src : Z; r_dst : Z; r_h : Z; r_bal : Z; r_sh : Z }.
+Record ubd := { u_del : Z; u_val : Z; u_h : Z; u_init : Z; u_bal : Z }.
+
+
 Record state := {
   s_vals : list vstate;
-  s_allow : list (akey * Z);       (* x/staking AllowanceKey records *)
-  s_reds : list (Z * Z * Z);       (* redelegation entries: (delegator, src, dst), one per entry *)
-  s_ubds : list (Z * Z * Z);       (* unbonding entries: (delegator, validator, creation height) *)
+  s_allow : list (akey * Z)   (* x/staking AllowanceKey records *);
+  s_reds : list red   (* redelegation entries, ordered like the store iterates them *);
+  s_ubds : list ubd   (* unbonding entries *);
+  s_paid : list (Z * Z)   (* rewards paid out so far, by account *);
   s_height : Z
 }.
 
-Definition set_vals (l : list vstate) (s : state) : state :=
-  {| s_vals := l; s_allow := s_allow s; s_reds := s_reds s; s_ubds := s_ubds s; s_height := s_height s |}.
-Definition set_allow (l : list (akey * Z)) (s : state) : state :=
-  {| s_vals := s_vals s; s_allow := l; s_reds := s_reds s; s_ubds := s_ubds s; s_height := s_height s |}.
-Definition set_reds (l : list (Z * Z * Z)) (s : state) : state :=
-  {| s_vals := s_vals s; s_allow := s_allow s; s_reds := l; s_ubds := s_ubds s; s_height := s_height s |}.
-Definition set_ubds (l : list (Z * Z * Z)) (s : state) : state :=
-  {| s_vals := s_vals s; s_allow := s_allow s; s_reds := s_reds s; s_ubds := l; s_height := s_height s |}.
-Definition set_height (h : Z) (s : state) : state :=
-  {| s_vals := s_vals s; s_allow := s_allow s; s_reds := s_reds s; s_ubds := s_ubds s; s_height := h |}.
+Definition set_vals (x : list vstate) (s : state) : state :=
+  {| s_vals := x; s_allow := s_allow s; s_reds := s_reds s; s_ubds := s_ubds s; s_paid := s_paid s; s_height := s_height s |}.
+Definition set_allow (x : list (akey * Z)) (s : state) : state :=
+  {| s_vals := s_vals s; s_allow := x; s_reds := s_reds s; s_ubds := s_ubds s; s_paid := s_paid s; s_height := s_height s |}.
+Definition set_reds (x : list red) (s : state) : state :=
+  {| s_vals := s_vals s; s_allow := s_allow s; s_reds := x; s_ubds := s_ubds s; s_paid := s_paid s; s_height := s_height s |}.
+Definition set_ubds (x : list ubd) (s : state) : state :=
+  {| s_vals := s_vals s; s_allow := s_allow s; s_reds := s_reds s; s_ubds := x; s_paid := s_paid s; s_height := s_height s |}.
+Definition set_paid (x : list (Z * Z)) (s : state) : state :=
+  {| s_vals := s_vals s; s_allow := s_allow s; s_reds := s_reds s; s_ubds := s_ubds s; s_paid := x; s_height := s_height s |}.
+Definition set_height (x : Z) (s : state) : state :=
+  {| s_vals := s_vals s; s_allow := s_allow s; s_reds := s_reds s; s_ubds := s_ubds s; s_paid := s_paid s; s_height := x |}.
+
 
 (* validators are addressed by index *)
 Fixpoint vnth (i : nat) (l : list vstate) : option vstate :=
@@ -156,6 +186,10 @@ Fixpoint adel (k : akey) (m : list (akey * Z)) : list (akey * Z) :=
   end.
 Definition aset (k : akey) (a : Z) (m : list (akey * Z)) : list (akey * Z) := (k, a) :: adel k m.
 
+(* rewards paid to an account so far *)
+Definition paid_of (a : Z) (s : state) : Z := match kget a (s_paid s) with Some x => x | None => 0 end.
+Definition pay (a amt : Z) (s : state) : state := set_paid (kset a (paid_of a s + amt) (s_paid s)) s.
+
 (* ---------- staking/types/validator.go ---------- *)
 (* all of these divide by DelegatorShares resp. Tokens: big.Int division by zero panics *)
 Definition tokens_from_shares (tok vsh sh : Z) : res Z :=
@@ -171,15 +205,18 @@ Definition shares_from_tokens_trunc (tok vsh amt : Z) : res Z :=
 (* ---------- distribution/keeper/validator.go ---------- *)
 Definition href (p : Z) (v : vstate) : Z :=
   match kget p (v_hist v) with Some c => c | None => 0 end.
+(* CumulativeRewardRatio of a period; a missing record reads as the zero value *)
+Definition hratio (p : Z) (v : vstate) : Z :=
+  match kget p (v_ratio v) with Some r => r | None => 0 end.
 
 (* decrementReferenceCount: panic at zero, delete the record when it reaches zero *)
 Definition dec_ref (p : Z) (v : vstate) : res vstate :=
   let c := href p v in
   if c =? 0 then Pan
-  else if c - 1 =? 0 then Ok (set_hist (kdel p (v_hist v)) v)
+  else if c - 1 =? 0 then Ok (set_ratio (kdel p (v_ratio v)) (set_hist (kdel p (v_hist v)) v))
   else Ok (set_hist (kset p (c - 1) (v_hist v)) v).
 
-(* incrementReferenceCount, SDK version: panic above 2 *)
+(* incrementReferenceCount, SDK version: panic above 2 (a missing record becomes {ratio 0, count 1}) *)
 Definition inc_ref (p : Z) (v : vstate) : res vstate :=
   let c := href p v in
   if 2 <? c then Pan else Ok (set_hist (kset p (c + 1) (v_hist v)) v).
@@ -189,12 +226,23 @@ Definition inc_ref_precompile (p : Z) (v : vstate) : res vstate :=
   let c := href p v in
   if 2 <? c then Err else Ok (set_hist (kset p (c + 1) (v_hist v)) v).
 
-(* IncrementValidatorPeriod: decrement (period-1), new record for `period` with count 1, period+1.
-   (the zero-token branch only moves reward amounts) *)
+(* IncrementValidatorPeriod: current rewards / tokens (truncated) are added to the cumulative ratio
+   (with zero tokens they go to the community pool instead), the reference of period-1 is released, a new
+   record for `period` with count 1 is written, current rewards restart at zero in period+1 *)
 Definition incr_period (v : vstate) : res vstate :=
   let p := v_period v in
+  r <- (if v_tokens v =? 0 then
+          (if v_out v - v_cur v <? 0 then Pan else Ok (0, v_out v - v_cur v))
+        else Ok (dec_quo_trunc (v_cur v) (dec_of_int (v_tokens v)), v_out v)) ;;
+  let '(current, out') := r in
+  let cum := hratio (p - 1) v in
   v1 <- dec_ref (p - 1) v ;;
-  Ok (set_period (p + 1) (set_hist (kset p 1 (v_hist v1)) v1)).
+  Ok (set_period (p + 1) (set_cur 0 (set_out out'
+        (set_ratio (kset p (cum + current) (v_ratio v1)) (set_hist (kset p 1 (v_hist v1)) v1))))).
+
+(* AllocateTokensToValidator with commission rate 0 (AllocateTokens never hands out a negative amount) *)
+Definition allocate (r : Z) (v : vstate) : vstate :=
+  let r' := Z.max r 0 in set_out (v_out v + r') (set_cur (v_cur v + r') v).
 
 (* ---------- distribution/keeper/delegation.go ---------- *)
 (* initializeDelegation *)
@@ -208,36 +256,83 @@ Definition init_delegation (h : Z) (a : Z) (v : vstate) : res vstate :=
       Ok (set_start (kset a {| si_prev := prev; si_stake := stake; si_height := h |} (v_start v1)) v1)
   end.
 
-(* withdrawDelegationRewards (amounts not modelled): needs a starting info; ends the period,
-   releases the reference of the starting period, deletes the starting info *)
-Definition withdraw_rewards (a : Z) (v : vstate) : res vstate :=
+(* calculateDelegationRewardsBetween: stake * (ratio[ending] - ratio[starting]), truncated *)
+Definition rewards_between (sp ep stake : Z) (v : vstate) : res Z :=
+  if ep <? sp then Pan
+  else if stake <? 0 then Pan
+  else let d := hratio ep v - hratio sp v in
+       if d <? 0 then Pan else Ok (dec_mul_trunc d stake).
+
+(* the slash events between the starting height and now: rewards up to each event with the stake before
+   it, then the stake is scaled by (1 - fraction), truncated.  acc = (rewards, stake, starting period) *)
+Fixpoint slash_walk (evs : list (Z * Z * Z)) (startH endH : Z) (v : vstate) (acc : Z * Z * Z) : res (Z * Z * Z) :=
+  match evs with
+  | [] => Ok acc
+  | (hh, p, f) :: r =>
+      let '(rw, stake, sp) := acc in
+      if (startH <=? hh) && (hh <=? endH) && (sp <? p) then
+        dr <- rewards_between sp p stake v ;;
+        slash_walk r startH endH v (rw + dr, dec_mul_trunc stake (prec - f), p)
+      else slash_walk r startH endH v acc
+  end.
+
+(* CalculateDelegationRewards for a delegation with starting info si and dsh shares, up to period `ending` *)
+Definition calc_rewards (h ending : Z) (si : sinfo) (dsh : Z) (v : vstate) : res Z :=
+  if si_height si =? h then Ok 0                       (* started this height, no rewards yet *)
+  else
+    w <- (if si_height si <? h then slash_walk (v_slashes v) (si_height si) h v (0, si_stake si, si_prev si)
+          else Ok (0, si_stake si, si_prev si)) ;;
+    let '(rw, stake, sp) := w in
+    (* stake sanity check against the current worth of the shares, 3 units of tolerance *)
+    cs <- tokens_from_shares (v_tokens v) (v_shares v) dsh ;;
+    stake' <- (if cs <? stake then (if stake <=? cs + 3 then Ok cs else Pan) else Ok stake) ;;
+    dr <- rewards_between sp ending stake' v ;;
+    Ok (rw + dr).
+
+(* withdrawDelegationRewards: needs a starting info; ends the period, computes the rewards, clips them to
+   the outstanding rewards, pays the whole coins (the fraction goes to the community pool), releases the
+   reference of the starting period, deletes the starting info.  Returns the coins paid. *)
+Definition withdraw_rewards (h : Z) (a : Z) (v : vstate) : res (vstate * Z) :=
   match kget a (v_start v) with
   | None => Err                               (* ErrEmptyDelegationDistInfo *)
   | Some _ =>
+      let dsh := match kget a (v_dels v) with Some d => d | None => 0 end in
       v1 <- incr_period v ;;
+      let ending := v_period v in
       let si := match kget a (v_start v1) with Some s => s | None => sinfo_zero end in
-      v2 <- dec_ref (si_prev si) v1 ;;
-      Ok (set_start (kdel a (v_start v2)) v2)
+      raw <- calc_rewards h ending si dsh v1 ;;
+      let rewards := Z.min raw (v_out v1) in   (* rewardsRaw.Intersect(outstanding) *)
+      let paid := dec_trunc_int rewards in     (* TruncateDecimal *)
+      let v1' := set_out (v_out v1 - rewards) v1 in
+      v2 <- dec_ref (si_prev si) v1' ;;
+      Ok (set_start (kdel a (v_start v2)) v2, paid)
   end.
 
 (* Keeper.WithdrawDelegationRewards = MsgWithdrawDelegatorReward *)
-Definition withdraw_delegation_rewards (h : Z) (a : Z) (v : vstate) : res vstate :=
+Definition withdraw_delegation_rewards (h : Z) (a : Z) (v : vstate) : res (vstate * Z) :=
   match kget a (v_dels v) with
   | None => Err                               (* ErrNoDelegation *)
   | Some _ =>
-      v1 <- withdraw_rewards a v ;;
-      init_delegation h a v1
+      r <- withdraw_rewards h a v ;;
+      v2 <- init_delegation h a (fst r) ;;
+      Ok (v2, snd r)
   end.
 
+(* what a delegator would be paid if it withdrew now (the querier's DelegationRewards, truncated and
+   clipped like a withdrawal) *)
+Definition pending (h : Z) (a : Z) (v : vstate) : res Z :=
+  r <- withdraw_delegation_rewards h a v ;; Ok (snd r).
+
 (* ---------- staking/keeper/delegation.go ---------- *)
-(* Keeper.Delegate for a bonded validator; returns the new shares *)
-Definition delegate_v (h : Z) (a amt : Z) (v : vstate) : res (vstate * Z) :=
+(* Keeper.Delegate; returns the new shares and the rewards paid by the hook *)
+Definition delegate_v (h : Z) (a amt : Z) (v : vstate) : res (vstate * Z * Z) :=
   if (v_tokens v =? 0) && (0 <? v_shares v) then Err            (* InvalidExRate *)
   else
-    v1 <- match kget a (v_dels v) with
-          | Some _ => withdraw_rewards a v     (* BeforeDelegationSharesModified *)
-          | None => incr_period v              (* BeforeDelegationCreated *)
-          end ;;
+    r <- match kget a (v_dels v) with
+         | Some _ => withdraw_rewards h a v                      (* BeforeDelegationSharesModified *)
+         | None => v1 <- incr_period v ;; Ok (v1, 0)             (* BeforeDelegationCreated *)
+         end ;;
+    let '(v1, paid) := r in
     (* AddTokensFromDel *)
     issued <- (if v_shares v1 =? 0 then Ok (dec_of_int amt)
                else match shares_from_tokens (v_tokens v1) (v_shares v1) amt with
@@ -248,7 +343,7 @@ Definition delegate_v (h : Z) (a amt : Z) (v : vstate) : res (vstate * Z) :=
     let v2 := set_dels (kset a (old + issued) (v_dels v1))
                 (set_shares (v_shares v1 + issued) (set_tokens (v_tokens v1 + amt) v1)) in
     v3 <- init_delegation h a v2 ;;           (* AfterDelegationModified *)
-    Ok (v3, issued).
+    Ok (v3, issued, paid).
 
 (* ValidateUnbondAmount: token amount -> shares, capped at the delegation *)
 Definition validate_unbond (a amt : Z) (v : vstate) : res Z :=
@@ -261,12 +356,13 @@ Definition validate_unbond (a amt : Z) (v : vstate) : res Z :=
       else Ok (if dsh <? sh then dsh else sh)
   end.
 
-(* Keeper.Unbond; returns the tokens leaving the validator (RemoveDelShares) *)
-Definition unbond_v (h : Z) (a sh : Z) (v : vstate) : res (vstate * Z) :=
+(* Keeper.Unbond; returns the tokens leaving the validator (RemoveDelShares) and the rewards paid *)
+Definition unbond_v (h : Z) (a sh : Z) (v : vstate) : res (vstate * Z * Z) :=
   match kget a (v_dels v) with
   | None => Err                               (* ErrNoDelegatorForAddress *)
   | Some dsh =>
-      v1 <- withdraw_rewards a v ;;           (* BeforeDelegationSharesModified *)
+      r <- withdraw_rewards h a v ;;          (* BeforeDelegationSharesModified *)
+      let '(v1, paid) := r in
       if dsh <? sh then Err
       else
         let dsh' := dsh - sh in
@@ -274,25 +370,27 @@ Definition unbond_v (h : Z) (a sh : Z) (v : vstate) : res (vstate * Z) :=
                else init_delegation h a (set_dels (kset a dsh' (v_dels v1)) v1)) ;;
         let remaining := v_shares v2 - sh in
         if remaining =? 0 then
-          Ok (set_shares remaining (set_tokens 0 v2), v_tokens v2)
+          Ok (set_shares remaining (set_tokens 0 v2), v_tokens v2, paid)
         else
           t <- tokens_from_shares (v_tokens v2) (v_shares v2) sh ;;
           let issued := dec_trunc_int t in
           if v_tokens v2 - issued <? 0 then Pan
-          else Ok (set_shares remaining (set_tokens (v_tokens v2 - issued) v2), issued)
+          else Ok (set_shares remaining (set_tokens (v_tokens v2 - issued) v2), issued, paid)
   end.
 
 (* ---------- x/staking/precompile/transfer_shares.go: handlerTransferShares ---------- *)
 (* `recv` = HasReceivingRedelegation(from, validator).  Statement order is the code's:
-   sender == recipient is refused; validator and fromDel are read; from's rewards are withdrawn; toDel is read (and to's rewards
-   withdrawn, or the period ended) BEFORE fromDel is written back; then from is written, then to.
+   sender == recipient is refused; validator and fromDel are read; from's rewards are withdrawn;
+   toDel is read (and to's rewards withdrawn, or the period ended) BEFORE fromDel is written back;
+   then from is written, then to.
    The three blocks of the function body are named so that the proofs can speak about them. *)
 
-(* "get to delegation": read toDel; withdraw to's rewards, or end the period if there is none *)
-Definition ts_read_to (h to : Z) (v1 : vstate) : res (vstate * Z * bool) :=
+(* "get to delegation": read toDel; withdraw to's rewards, or end the period if there is none.
+   Returns (state, toDel, found, rewards paid to `to`) *)
+Definition ts_read_to (h to : Z) (v1 : vstate) : res (vstate * Z * bool * Z) :=
   match kget to (v_dels v1) with
-  | None => v2 <- incr_period v1 ;; Ok (v2, 0, false)
-  | Some toDel => v2 <- withdraw_delegation_rewards h to v1 ;; Ok (v2, toDel, true)
+  | None => v2 <- incr_period v1 ;; Ok (v2, 0, false, 0)
+  | Some toDel => r <- withdraw_delegation_rewards h to v1 ;; Ok (fst r, toDel, true, snd r)
   end.
 
 (* "update from delegate, delete it if shares zero" (tok, vsh: the validator read at the top) *)
@@ -327,8 +425,9 @@ Definition ts_write_to (h tok vsh to toDel shares : Z) (toFound : bool) (v3 : vs
 
 (* the body of handlerTransferShares below its first statement — which is also the whole function as it
    was before commit 458669b ("pre-fix"): without the sender <> recipient guard the stale toDel made a
-   transfer to oneself inflate the delegation (docs/findings/C11-1.md) *)
-Definition transfer_shares_prefix (h : Z) (recv : bool) (from to x : Z) (v : vstate) : res vstate :=
+   transfer to oneself inflate the delegation (docs/findings/C11-1.md).
+   Returns (state, rewards paid to from, rewards paid to to) *)
+Definition transfer_shares_prefix (h : Z) (recv : bool) (from to x : Z) (v : vstate) : res (vstate * Z * Z) :=
   let tok := v_tokens v in
   let vsh := v_shares v in
   match kget from (v_dels v) with
@@ -339,36 +438,62 @@ Definition transfer_shares_prefix (h : Z) (recv : bool) (from to x : Z) (v : vst
         let shares := dec_of_int x in
         if fromDel <? shares then Err
         else
-          v1 <- withdraw_delegation_rewards h from v ;;
-          r <- ts_read_to h to v1 ;;
-          let '(v2, toDel, toFound) := r in
+          r1 <- withdraw_delegation_rewards h from v ;;
+          r <- ts_read_to h to (fst r1) ;;
+          let '(v2, toDel, toFound, paid_to) := r in
           v3 <- ts_write_from tok vsh from fromDel shares v2 ;;
           v5 <- ts_write_to h tok vsh to toDel shares toFound v3 ;;
           (* token := validator.TokensFromShares(shares).TruncateInt() *)
           _ <- tokens_from_shares tok vsh shares ;;
-          Ok v5
+          Ok (v5, snd r1, paid_to)
   end.
 
 (* handlerTransferShares as it is now: `if from == to { return error }` comes first *)
-Definition transfer_shares (h : Z) (recv : bool) (from to x : Z) (v : vstate) : res vstate :=
+Definition transfer_shares (h : Z) (recv : bool) (from to x : Z) (v : vstate) : res (vstate * Z * Z) :=
   if from =? to then Err else transfer_shares_prefix h recv from to x v.
 
 (* ---------- staking/keeper/slash.go (infraction height = current height) + distribution hook ---------- *)
 Definition power_reduction : Z := 100 * prec.     (* fx-core: 100 FX per unit of consensus power *)
 
+Definition slash_amount (power frac : Z) : Z :=
+  dec_trunc_int (dec_mul (dec_of_int (power * power_reduction)) frac).
+
+(* the tail of Keeper.Slash once the amount rest for the validator itself is known *)
+Definition slash_burn (h : Z) (remaining : Z) (v : vstate) : res vstate :=
+  let burn := Z.max (Z.min remaining (v_tokens v)) 0 in
+  if burn =? 0 then Ok v
+  else
+    (* effective fraction, rounded up, at most 1; BeforeValidatorSlashed -> updateValidatorSlashFraction *)
+    let f0 := dec_quo_roundup (dec_of_int burn) (dec_of_int (v_tokens v)) in
+    let f := if prec <? f0 then prec else f0 in
+    v1 <- incr_period v ;;
+    let newp := v_period v in
+    v2 <- inc_ref newp v1 ;;
+    let v3 := set_slashes (v_slashes v2 ++ [(h, newp, f)]) v2 in
+    Ok (set_tokens (v_tokens v3 - burn) v3).
+
 Definition slash_v (h : Z) (power frac : Z) (v : vstate) : res vstate :=
   if frac <? 0 then Err
-  else
-    let amount := dec_trunc_int (dec_mul (dec_of_int (power * power_reduction)) frac) in
-    let burn := Z.max (Z.min amount (v_tokens v)) 0 in
-    if burn =? 0 then Ok v
-    else
-      (* BeforeValidatorSlashed -> updateValidatorSlashFraction *)
-      v1 <- incr_period v ;;
-      let newp := v_period v in
-      v2 <- inc_ref newp v1 ;;
-      let v3 := set_slashes (v_slashes v2 ++ [(h, newp)]) v2 in
-      Ok (set_tokens (v_tokens v3 - burn) v3).
+  else if v_status v =? 2 then Err                  (* should not be slashing unbonded validator *)
+  else slash_burn h (slash_amount power frac) v.
+
+(* ---------- staking end blocker: validator set changes ---------- *)
+(* ApplyAndReturnValidatorSetUpdates (every validator fits into MaxValidators): a validator is in the
+   bonded set iff it is not jailed and has at least one unit of power; leaving starts the unbonding
+   period at this height.  UnbondAllMatureValidators: `mature` = the unbonding time has passed for
+   everything that started unbonding before this block. *)
+Definition active (v : vstate) : bool := negb (v_jailed v) && (power_reduction <=? v_tokens v).
+Definition end_block_v (h : Z) (mature : bool) (v : vstate) : vstate :=
+  if active v then set_status 0 v
+  else if v_status v =? 0 then set_ubh h (set_status 1 v)
+  else if (v_status v =? 1) && mature then set_status 2 v
+  else v.
+
+Fixpoint alloc_all (rs : list Z) (l : list vstate) : list vstate :=
+  match l, rs with
+  | v :: l', r :: rs' => allocate r v :: alloc_all rs' l'
+  | _, _ => l
+  end.
 
 (* ---------- operations ---------- *)
 Inductive op :=
@@ -379,28 +504,108 @@ Inductive op :=
 | Approve (v owner spender x : Z)             (* approveShares *)
 | Transfer (v from to x : Z)                  (* transferShares *)
 | TransferFrom (v spender from to x : Z)      (* transferFromShares *)
-| Block                                       (* a reward-producing block *)
-| Mature                                      (* a block after the unbonding time: all entries complete *)
-| SlashVal (v power frac : Z).                (* Keeper.Slash at the current height *)
+| Block (rs : list Z)                         (* a block; rs = rewards allocated to each validator in its BeginBlock *)
+| Mature (rs : list Z)                        (* a block after the unbonding time: all entries complete *)
+| SlashVal (v ih power frac : Z)              (* Keeper.Slash for an infraction at height ih <= now *)
+| Jail (v : Z)                                (* Keeper.Jail *)
+| Unjail (v : Z).                             (* Keeper.Unjail *)
 
 Definition max_entries : Z := 7.
 
-Definition count3 (f : Z * Z * Z -> bool) (l : list (Z * Z * Z)) : Z := Z.of_nat (length (filter f l)).
 Definition has_receiving (a dst : Z) (s : state) : bool :=
-  existsb (fun e => let '(d, _, t) := e in (d =? a) && (t =? dst)) (s_reds s).
+  existsb (fun e => (r_del e =? a) && (r_dst e =? dst)) (s_reds s).
 Definition red_entries (a src dst : Z) (s : state) : Z :=
-  count3 (fun e => let '(d, f, t) := e in (d =? a) && (f =? src) && (t =? dst)) (s_reds s).
+  Z.of_nat (length (filter (fun e => (r_del e =? a) && (r_src e =? src) && (r_dst e =? dst)) (s_reds s))).
 Definition ubd_entries (a v : Z) (s : state) : Z :=
-  count3 (fun e => let '(d, w, _) := e in (d =? a) && (w =? v)) (s_ubds s).
-Definition ubd_has (a v h : Z) (s : state) : bool :=
-  existsb (fun e => let '(d, w, g) := e in (d =? a) && (w =? v) && (g =? h)) (s_ubds s).
+  Z.of_nat (length (filter (fun e => (u_del e =? a) && (u_val e =? v)) (s_ubds s))).
+
+(* UnbondingDelegation.AddEntry: entries created at the same height (same completion time) merge *)
+Fixpoint ubd_add (a v h bal : Z) (l : list ubd) : list ubd :=
+  match l with
+  | [] => [{| u_del := a; u_val := v; u_h := h; u_init := bal; u_bal := bal |}]
+  | e :: r =>
+      if (u_del e =? a) && (u_val e =? v) && (u_h e =? h) then
+        {| u_del := a; u_val := v; u_h := h; u_init := u_init e + bal; u_bal := u_bal e + bal |} :: r
+      else e :: ubd_add a v h bal r
+  end.
+
+(* redelegation entries are kept in the order the store iterates them: by (src, delegator, dst)
+   (accounts and validators are numbered in address order), entries of one redelegation in creation order *)
+Definition red_le (x y : red) : bool :=
+  (r_src x <? r_src y) || ((r_src x =? r_src y) &&
+    ((r_del x <? r_del y) || ((r_del x =? r_del y) && (r_dst x <=? r_dst y)))).
+Fixpoint red_insert (x : red) (l : list red) : list red :=
+  match l with
+  | [] => [x]
+  | e :: r => if red_le e x then e :: red_insert x r else x :: l
+  end.
 
 Definition do_transfer (v from to x : Z) (s : state) : res state :=
   match get_val v s with
   | None => Err
   | Some vs =>
-      vs' <- transfer_shares (s_height s) (has_receiving from v s) from to x vs ;;
-      Ok (put_val v vs' s)
+      r <- transfer_shares (s_height s) (has_receiving from v s) from to x vs ;;
+      let '(vs', pf, pt) := r in
+      Ok (pay to pt (pay from pf (put_val v vs' s)))
+  end.
+
+(* ---------- Keeper.Slash for an infraction in the past: unbonding delegations and redelegations that
+   started at or after the infraction height are slashed first (all entries in the model are immature) ---- *)
+(* SlashUnbondingDelegation over every entry of validator v: returns (entries, total slash amount) *)
+Fixpoint slash_ubds (v ih frac : Z) (l : list ubd) : list ubd * Z :=
+  match l with
+  | [] => ([], 0)
+  | e :: r =>
+      let '(r', tot) := slash_ubds v ih frac r in
+      if (u_val e =? v) && (ih <=? u_h e) then
+        let amt := dec_trunc_int (dec_mul_int frac (u_init e)) in
+        let cut := Z.min amt (u_bal e) in
+        ({| u_del := u_del e; u_val := u_val e; u_h := u_h e; u_init := u_init e; u_bal := u_bal e - cut |} :: r',
+         tot + amt)
+      else (e :: r', tot)
+  end.
+
+(* the fork's "handle undelegation after redelegation": unbonding entries of (delegator, dst) absorb the
+   slash amount first; returns (entries, amount still to slash) *)
+Fixpoint slash_ubds_of (a dst ih amt : Z) (l : list ubd) : list ubd * Z :=
+  match l with
+  | [] => ([], amt)
+  | e :: r =>
+      if (u_del e =? a) && (u_val e =? dst) then
+        let cut := Z.min amt (u_bal e) in
+        if (cut =? 0) || (u_h e <? ih) then
+          let '(r', rest) := slash_ubds_of a dst ih amt r in (e :: r', rest)
+        else
+          let '(r', rest) := slash_ubds_of a dst ih (amt - cut) r in
+          ({| u_del := u_del e; u_val := u_val e; u_h := u_h e; u_init := u_init e; u_bal := u_bal e - cut |} :: r', rest)
+      else
+        let '(r', rest) := slash_ubds_of a dst ih amt r in (e :: r', rest)
+  end.
+
+(* SlashRedelegation over the entries whose source is v, in store order; acc = (state, total) *)
+Fixpoint slash_reds (v ih frac : Z) (l : list red) (s : state) (tot : Z) : res (state * Z) :=
+  match l with
+  | [] => Ok (s, tot)
+  | e :: r =>
+      if (r_src e =? v) && (ih <=? r_h e) then
+        let amt := dec_trunc_int (dec_mul_int frac (r_bal e)) in
+        let '(ubds', rest) := slash_ubds_of (r_del e) (r_dst e) ih amt (s_ubds s) in
+        let s1 := set_ubds ubds' s in
+        let shares := dec_mul frac (r_sh e) in
+        if (shares =? 0) || (rest =? 0) then slash_reds v ih frac r s1 (tot + amt)
+        else match get_val (r_dst e) s1 with
+             | None => Err
+             | Some vd =>
+                 match kget (r_del e) (v_dels vd) with
+                 | None => slash_reds v ih frac r s1 (tot + amt)
+                 | Some dsh =>
+                     let sh := if dsh <? shares then dsh else shares in
+                     u <- unbond_v (s_height s) (r_del e) sh vd ;;
+                     let '(vd', _, paid) := u in
+                     slash_reds v ih frac r (pay (r_del e) paid (put_val (r_dst e) vd' s1)) (tot + amt)
+                 end
+             end
+      else slash_reds v ih frac r s tot
   end.
 
 Definition exec (s : state) (o : op) : res state :=
@@ -409,7 +614,10 @@ Definition exec (s : state) (o : op) : res state :=
       if amt <=? 0 then Err
       else match get_val v s with
            | None => Err
-           | Some vs => r <- delegate_v (s_height s) a amt vs ;; Ok (put_val v (fst r) s)
+           | Some vs =>
+               r <- delegate_v (s_height s) a amt vs ;;
+               let '(vs', _, paid) := r in
+               Ok (pay a paid (put_val v vs' s))
            end
   | Undelegate v a amt =>
       if amt <=? 0 then Err
@@ -420,10 +628,9 @@ Definition exec (s : state) (o : op) : res state :=
                if max_entries <=? ubd_entries a v s then Err
                else
                  r <- unbond_v (s_height s) a sh vs ;;
-                 let s1 := put_val v (fst r) s in
-                 (* UnbondingDelegation.AddEntry merges entries created at the same height *)
-                 Ok (if ubd_has a v (s_height s) s1 then s1
-                     else set_ubds (s_ubds s1 ++ [(a, v, s_height s)]) s1)
+                 let '(vs', tokens, paid) := r in
+                 let s1 := pay a paid (put_val v vs' s) in
+                 Ok (set_ubds (ubd_add a v (s_height s) tokens (s_ubds s1)) s1)
            end
   | Redelegate src dst a amt =>
       if amt <=? 0 then Err
@@ -439,17 +646,27 @@ Definition exec (s : state) (o : op) : res state :=
                         else if max_entries <=? red_entries a src dst s then Err
                         else
                           r <- unbond_v (s_height s) a sh vsrc ;;
-                          if snd r =? 0 then Err                     (* ErrTinyRedelegationAmount *)
+                          let '(vsrc', tokens, paid1) := r in
+                          if tokens =? 0 then Err                    (* ErrTinyRedelegationAmount *)
                           else
-                            r2 <- delegate_v (s_height s) a (snd r) vdst ;;
-                            let s1 := put_val dst (fst r2) (put_val src (fst r) s) in
-                            Ok (set_reds (s_reds s1 ++ [(a, src, dst)]) s1)
+                            r2 <- delegate_v (s_height s) a tokens vdst ;;
+                            let '(vdst', created, paid2) := r2 in
+                            let s1 := pay a paid2 (pay a paid1 (put_val dst vdst' (put_val src vsrc' s))) in
+                            (* getBeginInfo: no entry when the source validator is unbonded; an unbonding
+                               source validator gives its own unbonding height *)
+                            if v_status vsrc' =? 2 then Ok s1
+                            else
+                              let eh := if v_status vsrc' =? 1 then v_ubh vsrc' else s_height s in
+                              Ok (set_reds (red_insert {| r_del := a; r_src := src; r_dst := dst; r_h := eh;
+                                                          r_bal := tokens; r_sh := created |} (s_reds s1)) s1)
                     end
            end
   | Withdraw v a =>
       match get_val v s with
       | None => Err
-      | Some vs => vs' <- withdraw_delegation_rewards (s_height s) a vs ;; Ok (put_val v vs' s)
+      | Some vs =>
+          r <- withdraw_delegation_rewards (s_height s) a vs ;;
+          Ok (pay a (snd r) (put_val v (fst r) s))
       end
   | Approve v owner spender x =>
       if x <? 0 then Err else Ok (set_allow (aset (v, owner, spender) x (s_allow s)) s)
@@ -462,12 +679,39 @@ Definition exec (s : state) (o : op) : res state :=
         let al := aget (v, from, spender) (s_allow s) in
         if al <? x then Err
         else do_transfer v from to x (set_allow (aset (v, from, spender) (al - x) (s_allow s)) s)
-  | Block => Ok (set_height (s_height s + 1) s)
-  | Mature => Ok (set_height (s_height s + 1) (set_ubds [] (set_reds [] s)))
-  | SlashVal v power frac =>
+  | Block rs =>
+      (* BeginBlock: reward allocation; EndBlock: validator set changes *)
+      Ok (set_height (s_height s + 1)
+            (set_vals (map (end_block_v (s_height s) false) (alloc_all rs (s_vals s))) s))
+  | Mature rs =>
+      Ok (set_height (s_height s + 1)
+            (set_ubds [] (set_reds []
+               (set_vals (map (end_block_v (s_height s) true) (alloc_all rs (s_vals s))) s))))
+  | SlashVal v ih power frac =>
       match get_val v s with
       | None => Err
-      | Some vs => vs' <- slash_v (s_height s) power frac vs ;; Ok (put_val v vs' s)
+      | Some vs =>
+          if frac <? 0 then Err
+          else if v_status vs =? 2 then Err
+          else if s_height s <? ih then Err          (* can't slash infractions in the future *)
+          else if ih =? s_height s then
+            vs' <- slash_burn (s_height s) (slash_amount power frac) vs ;; Ok (put_val v vs' s)
+          else
+            let '(ubds', t1) := slash_ubds v ih frac (s_ubds s) in
+            r <- slash_reds v ih frac (s_reds s) (set_ubds ubds' s) 0 ;;
+            let '(s1, t2) := r in
+            vs' <- slash_burn (s_height s) (slash_amount power frac - t1 - t2) vs ;;
+            Ok (put_val v vs' s1)
+      end
+  | Jail v =>
+      match get_val v s with
+      | None => Pan                                  (* mustGetValidatorByConsAddr *)
+      | Some vs => if v_jailed vs then Err else Ok (put_val v (set_jailed true vs) s)
+      end
+  | Unjail v =>
+      match get_val v s with
+      | None => Pan
+      | Some vs => if v_jailed vs then Ok (put_val v (set_jailed false vs) s) else Err
       end
   end.
 
@@ -487,11 +731,46 @@ Definition run (s : state) (ops : list op) : state := fold_left (fun st o => fst
 Definition op_base : Z := 100.
 Definition gen_v (i : Z) : vstate :=
   {| v_tokens := power_reduction; v_shares := dec_of_int power_reduction;
+     v_status := 0; v_jailed := false; v_ubh := 0;
      v_dels := [(op_base + i, dec_of_int power_reduction)];
-     v_period := 2; v_hist := [(1, 2)];
+     v_period := 2; v_cur := 0; v_out := 0; v_hist := [(1, 2)]; v_ratio := [];
      v_start := [(op_base + i, {| si_prev := 1; si_stake := dec_of_int power_reduction; si_height := 0 |})];
      v_slashes := [] |}.
 Fixpoint gen_vals (n : nat) (i : Z) : list vstate :=
   match n with O => [] | S m => gen_v i :: gen_vals m (i + 1) end.
 Definition gen_state (n : nat) : state :=
-  {| s_vals := gen_vals n 0; s_allow := []; s_reds := []; s_ubds := []; s_height := 1 |}.
+  {| s_vals := gen_vals n 0; s_allow := []; s_reds := []; s_ubds := []; s_paid := []; s_height := 1 |}.
+
+(* ---------- the two entry points, parametrised by their call-path facts ---------- *)
+(* Which caller-side value an entry point hands on: contract.Caller(), args.From or args.To.  The facts of
+   TransferShares.Run and TransferFromShares.Run are generated from the source by harness/gen_c11
+   (coq/gen/Gen_C11.v); exec_entry is the entry point they describe. *)
+Inductive subj := SCaller | SArgsFrom | SArgsTo.
+Record entry_facts := {
+  ef_sender : subj;                       (* passed to handlerTransferShares as `from` *)
+  ef_recipient : subj;                    (* passed as `to` *)
+  ef_guards : list subj;                  (* checked with HasReceivingRedelegation *)
+  ef_allow : option (subj * subj)         (* (owner, spender) of decrementAllowance, if called *)
+}.
+Definition subj_eval (g : subj) (caller afrom ato : Z) : Z :=
+  match g with SCaller => caller | SArgsFrom => afrom | SArgsTo => ato end.
+
+Definition exec_entry (ef : entry_facts) (v caller afrom ato x : Z) (s : state) : res state :=
+  let ev g := subj_eval g caller afrom ato in
+  if x <=? 0 then Err
+  else
+    s1 <- match ef_allow ef with
+          | None => Ok s
+          | Some (o, sp) =>
+              let k := (v, ev o, ev sp) in
+              let al := aget k (s_allow s) in
+              if al <? x then Err else Ok (set_allow (aset k (al - x) (s_allow s)) s)
+          end ;;
+    match get_val v s1 with
+    | None => Err
+    | Some vs =>
+        r <- transfer_shares (s_height s1) (existsb (fun g => has_receiving (ev g) v s1) (ef_guards ef))
+                             (ev (ef_sender ef)) (ev (ef_recipient ef)) x vs ;;
+        let '(vs', pf, pt) := r in
+        Ok (pay (ev (ef_recipient ef)) pt (pay (ev (ef_sender ef)) pf (put_val v vs' s1)))
+    end.
